@@ -531,7 +531,7 @@ def scenarios_for(ctx, prop):
             out.append(sc_synced_then_needed(rng, n, t, k))
     if prop == "C07":
         shapes = ["same", "add1", "remove1", "replace1", "tup", "add2", "replacefirst"]
-        for k, sh in enumerate(shapes if not q else rng.sample(shapes, 3)):
+        for k, sh in enumerate(shapes if not q else rng.sample(shapes[:-1], 2) + ["replacefirst"]):   # the index-shifting shape always runs
             out.append(sc_reshare(rng, sh, k))
         out.append(sc_reshare_early(rng, 0))
         out.append(sc_reshare_late(rng, 0))
